@@ -4,7 +4,7 @@ C04 / C10 — model of the client negotiation state machine of `QXmppOutgoingCli
 base/QXmppStreamManagement.cpp `StreamAckManager`, and the parts of `QXmppClient` /
 `QXmppRosterManager` that react to `connected`).
 
-The model follows the code that exists (tree after the fixes e0bbad9, fa0779c, 7771c2d, 7a677f2, e363fe9, c590ae4, 7c60ff5, a739aa9, e3d3c0f, 8d68c05, dcf656f):
+The model follows the code that exists (tree after the fixes e0bbad9, fa0779c, 7771c2d, 7a677f2, e363fe9, c590ae4, 7c60ff5, a739aa9, e3d3c0f, 8d68c05, dcf656f, 6235115):
 * `handleStream` starts XEP-0078 authentication on a header without `version` — unless TLS is required and the link is
   not encrypted: then it warns and disconnects;
 * the idle listener rejects EVERY element but stream features and stream errors - whatever its namespace - received on an
@@ -62,6 +62,13 @@ structure Cfg where
   localTls : Bool := true
   /-- `keepAliveInterval() > 0` (the keep-alive timeout is not modelled: the harness sets it to 0 = off) -/
   keepAlive : Bool := false
+  /-- `autoReconnectionEnabled()` (QXmppClient: every socket error starts the single-shot reconnect timer) -/
+  autoReconnect : Bool := false
+  /-- a `QXmppRegistrationManager` with `registerOnConnectEnabled` is installed: the extension consumes every stream features
+  element (through `elementReceived`), the client's own `handleStreamFeatures` never sees it -/
+  registerOnConnect : Bool := false
+  /-- … and holds a filled-in registration form (user name + password) to send -/
+  regForm : Bool := false
   deriving DecidableEq, Repr
 
 structure S2Feat where
@@ -81,6 +88,8 @@ structure Features where
   bind : Bool := false
   sm : Bool := false
   csi : Bool := false
+  /-- `<register xmlns='http://jabber.org/features/iq-register'/>` -/
+  register : Bool := false
   deriving DecidableEq, Repr
 
 inductive BindRes | ok | noJid | error | wrongId
@@ -139,6 +148,8 @@ inductive Ev
   | sendIq              -- application: QXmppOutgoingClient::sendIq
   | recvWhitespace      -- server: a whitespace keep-alive (XmppSocket hands a null element to the listener)
   | recvPartial         -- server: the beginning of an element (stays in the read buffer)
+  | tlsCloseNotify      -- server: TLS close_notify WITHOUT closing the TCP connection
+  | reconnectTick       -- time: the reconnect timer of QXmppClient fires (if it is running)
   | tick                -- time: the keep-alive interval elapses (the ping timer fires if it is running)
   | closeTail           -- server: the `</stream:stream>` that ends a read whose elements have just been dispatched
                         -- (`<stream:error>…</stream:error></stream:stream>` in ONE segment = recv streamError, then closeTail)
@@ -151,6 +162,7 @@ inductive Kind
   | sasl2Auth (m : Used) (bind2 sm resume inactive reqToken fast : Bool) | sasl2Response | sasl2Abort
   | bind | smEnable | smResume | smReq | smAck
   | iqReply (error : Bool) | iqRequest (roster : Bool) | presence
+  | register (form : Bool)   -- jabber:iq:register: the filled-in form (user name, password) / the request for the form
   | ping   -- the keep-alive `<iq type='get'><ping xmlns='urn:xmpp:ping'/></iq>`
   | csiActive | csiInactive
   deriving DecidableEq, Repr
@@ -175,6 +187,7 @@ def Kind.carriesSecret : Kind → Bool
   | .saslAuth .ht => true
   | .sasl2Auth .plain .. => true
   | .sasl2Auth .ht .. => true
+  | .register true => true
   | _ => false
 
 inductive Listener
@@ -216,6 +229,14 @@ structure St where
   resumeLoc : Bool := false
   /-- the address of the current / last TCP connection attempt -/
   target : Addr := .configured
+  /-- QXmppClient: the reconnect timer is running (started by a socket error when automatic reconnection is on; single shot;
+  the back-off delays are not modelled) -/
+  reconnectArmed : Bool := false
+  /-- the peer has shut down its half of the TLS session (close_notify) on this connection: a later loss of the TCP connection is
+  reported as ONE socket error, not two (only read by the harness op `drop`) -/
+  peerShutdown : Bool := false
+  /-- QXmppRegistrationManager: the cached registration form has not been sent yet -/
+  regForm : Bool := false
   /-- StreamAckManager::m_enabled -/
   ackEnabled : Bool := false
   /-- stanzas kept for re-sending (kinds only) -/
@@ -231,7 +252,7 @@ structure St where
   deriving DecidableEq, Repr
 
 def init (cfg : Cfg) : St :=
-  { cfg := cfg, hasToken := cfg.token, csiSynced := !cfg.inactive }
+  { cfg := cfg, hasToken := cfg.token, csiSynced := !cfg.inactive, regForm := cfg.regForm }
 
 abbrev R := St × List Out
 
@@ -253,6 +274,9 @@ def enableAck (s : St) : R :=
   ({ s with ackEnabled := true },
    if s.unacked.isEmpty then [] else s.unacked.map (send s) ++ [send s .smReq])
 
+/-- QXmppClientPrivate::onErrorOccurred for a SOCKET error: schedule a reconnect -/
+def armReconnect (s : St) : St := { s with reconnectArmed := s.reconnectArmed || s.cfg.autoReconnect }
+
 /-- `closeSession` -/
 def closeSession (s : St) : R :=
   let n := if s.canResume then 0 else s.pendingIq
@@ -265,7 +289,7 @@ def onSocketDisconnected (s : St) : R :=
   let s1 := { s with authenticated := false }
   if s1.redirect then
     let r := if s1.sessionStarted then closeSession s1 else (s1, [])
-    ({ r.1 with redirect := false, conn := .connecting, encrypted := false, target := .redirect }, r.2)
+    ({ r.1 with redirect := false, conn := .connecting, encrypted := false, target := .redirect, peerShutdown := false }, r.2)
   else closeSession s1
 
 /-- `XmppSocket::disconnectFromHost` -/
@@ -373,8 +397,8 @@ def handleStarttls (s : St) (f : Features) : Option R :=
     some ({ s with listener := .starttls }, [send s .startTls])
   else none
 
-/-- `handleStreamFeatures` -/
-def handleFeatures (s : St) (f : Features) : R :=
+/-- `handleStreamFeatures` (the client's own handling) -/
+def handleFeaturesOwn (s : St) (f : Features) : R :=
   match handleStarttls s f with
   | some r => r
   | none =>
@@ -392,6 +416,30 @@ def handleFeatures (s : St) (f : Features) : R :=
           else if s1.bindAvail then startBind s1
           else if s1.smAvail ∧ ¬ s1.smEnabled then startSmEnable s1
           else openSession s1
+
+/-- `QXmppClient::disconnectFromServer`: the reconnect timer is stopped, an established session says good-bye with an
+unavailable presence, the stream is closed -/
+def disconnectFromServer (s : St) : R :=
+  let s0 := { s with reconnectArmed := false }
+  let r1 := if s0.conn = .connected ∧ s0.sessionStarted then sendStanza s0 .presence else (s0, [])
+  let r2 := disconnectFromHost r1.1
+  (r2.1, r1.2 ++ r2.2)
+
+/-- `QXmppRegistrationManager::handleStanza` for a stream features element when `registerOnConnect` is enabled: STARTTLS first
+(the client's own `handleStarttls`, which also gives up when TLS is required and not offered); then: no `<register/>` feature →
+`disconnectFromServer()`; else the cached form is sent (once), or the form is requested -/
+def registerOnFeatures (s : St) (f : Features) : R :=
+  match handleStarttls s f with
+  | some r => r
+  | none =>
+    if f.register then
+      let r := sendStanza s (.register s.regForm)
+      ({ r.1 with regForm := false }, r.2)
+    else disconnectFromServer s
+
+/-- what happens to a stream features element in the idle listener: extensions come first (`elementReceived`) -/
+def handleFeatures (s : St) (f : Features) : R :=
+  if s.cfg.registerOnConnect then registerOnFeatures s f else handleFeaturesOwn s f
 
 /-- `C2sStreamManager::onEnabled` -/
 def onSmEnabled (s : St) (resume : Bool) (loc : Bool := false) : R :=
@@ -464,7 +512,7 @@ def starttlsHandle (s : St) : El → R
     handleStart { s with encrypted := true, headerSeen := false, listener := .idle }
   | .proceed false =>
     -- handshake fails: socket error, socket closes
-    let r := onSocketDisconnected { s with conn := .disconnected, listener := .idle }
+    let r := onSocketDisconnected { armReconnect s with conn := .disconnected, listener := .idle }
     (r.1, .sig .error :: r.2)
   | _ => reject s
 
@@ -609,27 +657,34 @@ def St.pingArmed (s : St) : Bool := s.cfg.keepAlive && s.sessionStarted
 def sendPing (s : St) : R :=
   if s.ackEnabled then (s, [send s .smReq]) else (s, [send s .ping])
 
+/-- the socket leaves the connected / connecting state without the client closing the stream: the connection is lost
+(environment event `socketDisconnected`) or the client itself calls `abort()` -/
+def socketGone (s : St) : R :=
+  if s.conn = .connected then onSocketDisconnected { s with conn := .disconnected }
+  else if s.conn = .connecting then ({ s with conn := .disconnected }, [])
+  else (s, [])
+
+/-- `QXmppOutgoingClient::connectToHost()` (application: `connectToServer`; QXmppClient: `_q_reconnect`).  A (re)connect starts
+from an unconnected socket (6235115): a socket that is still connecting or connected is aborted first — the old session ends like
+after a loss of the connection (no stream close, resumable if it was) — then the new connection is opened.  (Before that fix
+`QSslSocket::connectToHost` reset the live socket to unencrypted mode and the old session went on in clear.) -/
+def connectTo (s : St) : R :=
+  let r := socketGone s
+  ({ r.1 with conn := .connecting, encrypted := false, hasToken := r.1.cfg.token, target := connectTarget r.1,
+              peerShutdown := false }, r.2)
+
 def sendIq (s : St) : R :=
   let r := sendStanza s (.iqRequest false)
   if ¬ s.ackEnabled ∧ s.conn ≠ .connected then (r.1, r.2 ++ [.sig (.iqDone true)])
   else ({ r.1 with pendingIq := r.1.pendingIq + 1 }, r.2)
 
 def step (s : St) : Ev → R
-  | .connectToServer =>
-    if s.conn = .disconnected then
-      ({ s with conn := .connecting, encrypted := false, hasToken := s.cfg.token, target := connectTarget s }, [])
-    else
-      -- `QSslSocket::connectToHost` resets the socket to unencrypted mode before `QAbstractSocket` refuses the call
-      -- (observed); what the link does afterwards is outside the model (never generated except as a last op)
-      ({ s with encrypted := false }, [.sig .error])
+  | .connectToServer => connectTo s
   | .socketConnected =>
     if s.conn = .connecting then handleStart { s with conn := .connected, headerSeen := false, wedged := false }
     else (s, [])
-  | .socketError => (s, [.sig .error])
-  | .socketDisconnected =>
-    if s.conn = .connected then onSocketDisconnected { s with conn := .disconnected }
-    else if s.conn = .connecting then ({ s with conn := .disconnected }, [])
-    else (s, [])
+  | .socketError => (armReconnect s, [.sig .error])
+  | .socketDisconnected => socketGone s
   | .recv e => recv s e
   | .sendIq => sendIq s
   | .recvWhitespace =>
@@ -637,6 +692,11 @@ def step (s : St) : Ev → R
     (s, [])
   | .recvPartial =>
     if s.conn ≠ .connected ∨ s.wedged then (s, []) else ({ s with wedged := true }, [])
+  | .tlsCloseNotify =>
+    -- QSslSocket reports RemoteHostClosedError and stays connected and in encrypted mode (it will not write a close_notify of its
+    -- own); not modelled: every later write on this half-closed TLS session raises the same socket error again
+    if s.conn = .connected ∧ s.encrypted then ({ armReconnect s with peerShutdown := true }, [.sig .error]) else (s, [])
+  | .reconnectTick => if s.reconnectArmed then connectTo { s with reconnectArmed := false } else (s, [])
   | .tick => if s.pingArmed then sendPing s else (s, [])
   | .closeTail =>
     -- `streamClosed` → `QXmppOutgoingClient::disconnectFromHost`: forgets the resumption state and closes the socket if it is
